@@ -10,6 +10,7 @@ mod oracle;
 mod util;
 
 mod mon_build;
+mod mon_cold;
 mod mon_color;
 mod mon_ctor;
 mod mon_hsl;
@@ -110,6 +111,9 @@ fn main() {
         use yuvxyb_math::verif as vh;
         vh::set_mode(if ctx.arg("hook-mode") == Some("record") { vh::Mode::Record } else { vh::Mode::Trap });
     }
+    if monitor == "COLDCHILD" {
+        mon_cold::child(&ctx);
+    }
     // results must not depend on whether the host application listens to the library's log output:
     // `--log-level trace` installs a logger that accepts (and counts) everything
     if let Some(level) = ctx.arg("log-level") {
@@ -153,6 +157,7 @@ fn main() {
         "C15" => mon_meta::c15(&ctx),
         "C07" => mon_safety::c07(&ctx),
         "C13" => mon_safety::c13(&ctx),
+        "COLD" => mon_cold::cold(&ctx),
         "C20probe" => mon_build::probe(&ctx),
         "C20dump" => mon_build::dump(&ctx),
         "replay" => replay(&ctx),
@@ -233,6 +238,9 @@ fn replay(ctx: &Ctx) {
     let j = json::parse(&text).expect("parse replay file");
     let mon = j.get("monitor").and_then(J::as_str).unwrap_or("").to_string();
     let case = j.get("case").cloned().unwrap_or(J::Null);
+    if mon_cold::replay(&case) {
+        return;
+    }
     let ok = match mon.as_str() {
         "C01" | "C08" | "C16" | "C02" => mon_yuv::replay(&mon, &case),
         "C03" | "C10" => mon_transfer::replay(&mon, &case),
